@@ -695,6 +695,42 @@ def main(tier):
         if o == "returned":
             for m in ("endDev", "ode", "outside", "ratio"):
                 chk.maximum(f"pathline_{m}:{fam}", info[m])
+    # ---- shared flow objects: ONE pair of callables serves a whole lattice of final locations (a client that traces
+    # many particles through one flow), in one process, same box / strain limit / step count throughout.  Every call is
+    # judged on where its pathline ends (the other clauses are judged on the scenario corpus above).
+    from pydrex import pathlines as _pl
+    for fam, axes, envf in (("shear", ("X", "Z"), dict(rate=0.4, U=1.0, d=1.0)), ("corner", ("X", "Z"), dict(rate=1.0, U=0.7, d=1.0))):
+        try:
+            u_sh, L_sh = build_flow(fam, axes, envf)
+        except Exception as ex:  # noqa: BLE001 - judged by the axis table / flow replay
+            chk.skip("shared-flow lattice: flow constructor raised " + type(ex).__name__)
+            continue
+        lo, hi = (np.array([-3.0, -1.0, -3.0]), np.array([3.0, 1.0, 3.0])) if fam == "shear" else (np.array([-0.5, -1.0, -3.5]), np.array([4.0, 1.0, 0.0]))
+        grid = [(a, b) for a in ((-2.0, -1.0, 0.0, 1.0, 2.0) if fam == "shear" else (0.0, 1.0, 2.0, 3.0)) for b in ((-2.0, -1.0) if fam == "shear" else (-3.0, -2.0, -1.0))]
+        cnt_sh = [0]
+        u_b = budgeted(u_sh, cnt_sh)        # ONE callable object for the whole lattice; the budget is reset per call
+        for a, b in grid:
+            xf = np.array([a, 0.0, b])
+            chk.count(("shared-flow-lattice", fam, a, b))
+            cnt_sh[0] = 0
+            try:
+                ts, pos = _pl.get_pathline(xf, u_b, L_sh, lo, hi, 0.8, regular_steps=5)
+                end = np.asarray(pos(0.0), dtype=float)
+                dev = float(np.abs(end - xf).max())
+            except NoReturn:
+                chk.skip("shared-flow lattice: no return within the evaluation budget (listed finding F9d)")
+                continue
+            except Exception as ex:  # noqa: BLE001 - the statement promises a pathline for every interior final location
+                out = exc_class(ex)
+                if fam == "corner" and out.startswith("ValueError"):
+                    chk.skip("shared-flow lattice: root-finder ValueError (listed finding F9c)")
+                    continue
+                chk.violation(dict(clause="pathline-raised", form="shared-flow-lattice", fam=fam, exc=out), f"get_pathline raised {ex!r} for the interior final location {xf.tolist()} ({fam})", dict(kind="shared-flow-lattice", fam=fam, xf=xf.tolist()))
+                continue
+            if not dev <= 1e-6 * float(np.max(hi - lo)):
+                chk.violation(dict(clause="ends-at-final-location", form="shared-flow-lattice", fam=fam),
+                              f"{fam}: the pathline requested for the final location {xf.tolist()} ends at {end.tolist()} at t = 0 (same flow callables as the previous calls)",
+                              dict(kind="shared-flow-lattice", fam=fam, xf=xf.tolist(), end=end.tolist()))
     with scratch() as d:
         cfg = "PathTrace" if quick else "PathTrace_thorough"
         rejects, tr, npath = validate(events, d, cfg)
